@@ -166,6 +166,10 @@ let run (kind : string) : bool =
        let f = ii.cast F64 F32 s in
        pq (op_mul__QuaternionT_d_f ii a f); pq (op_mul__f_QuaternionT_d ii f a) end);
     true
+  | "f2" ->
+    let v = v2 () in let r = n () in
+    pa2 (affineSpaceT_LinearSpace2_v2f_scale__v2f ii v); pa2 (affineSpaceT_LinearSpace2_v2f_translate__v2f ii v);
+    pa2 (affineSpaceT_LinearSpace2_v2f_rotate__f ii r); pm2 (linearSpace2_scale__v2f ii v); pm2 (linearSpace2_rotate__f ii r); true
   | "r2" ->
     let r = n () in let p = v2 () in
     pm2 (linearSpace2_rotate__f ii r); pa2 (affineSpaceT_LinearSpace2_v2f_rotate__v2f_f ii p r); true
